@@ -430,9 +430,10 @@ def C_identity_rotation_single_atom(repo, clause):
             continue
         gs = norm_guards(fn, d)
         ok = False
+        from .common import implied_min_len
         for t, pol, k in gs:
-            if pol and isinstance(t, ast.Compare) and isinstance(t.left, ast.Call) and call_name(t.left) == "len" and isinstance(t.ops[0], ast.Gt) \
-                    and (const_value(t.comparators[0]) or 0) >= 1:
+            ml = implied_min_len(t, pol)
+            if ml is not None and ml[1] >= 2:
                 ok = True
         obs.append(Ob("Cid", clause, fn, d, ok, "rotation `%s` is reassigned only when the candidate has more than one atom: a one-atom pattern keeps the identity" % q,
                       slot="reassign-guard:%s" % re.sub(r"\s+", " ", ast.unparse(d.value))[:50]))
